@@ -47,5 +47,11 @@ TEXTS = {
         "level_note": "Trusts the harness's predicate and HAVING evaluators (h/model.go Pred.Eval, checks/c08_test.go evalHaving) on the type-consistent sub-domain, and the ingestion barrier / clock hooks.",
         "technique": "property-based testing (rapid), differential + own-evaluator oracle",
     },
+    "C11": {
+        "level_text": "Translation validation per generated query and partitioning: the cluster plan and the local plan are both executed (real planner, real fan-out code, real tables) and their rows compared. Each run validates hundreds to thousands of (program, split) pairs; it validates the translation for the programs generated, not the planner in general.",
+        "design_ref": "DESIGN.md section 4 C11",
+        "level_note": "Trusts the harness's follower-equivalent query handler (h/cluster_lite.go, a copy of what DB.queryForRemote does) and the standalone database as the meaning of the local plan (C01/C06 check that against the reference).",
+        "technique": "property-based testing (rapid) driving translation validation (cluster plan vs local plan)",
+    },
 }
 NOT_APPLICABLE = []
